@@ -10,7 +10,7 @@ def build(tier):
     groups = SG.select(PROP, FAMILIES, report)
     from props import kernels
     krep = {}
-    groups += kernels.hessqr_groups(tier, krep) + kernels.dsqr_groups(tier, krep) + kernels.bkldlt_groups(tier, krep) + kernels.tridiagqr_groups(krep) + kernels.eigen_groups(tier, krep)
+    groups += kernels.hessqr_shape_groups(krep) + kernels.hessqr_groups(tier, krep) + kernels.dsqr_groups(tier, krep) + kernels.bkldlt_groups(tier, krep) + kernels.tridiagqr_groups(krep) + kernels.eigen_groups(tier, krep)
     # index safety / termination of the dense eigen-decompositions the solvers call on H (groups shared with C09)
     from props import C09
     have = set(g.name for g in groups)
